@@ -7,6 +7,24 @@ from props import core_units
 
 BLIND = ["RandomSearchOptimizer", "GridSearchOptimizer"]
 
+# non-default settings under which the optimizer still has to be directed (settings that switch the use of scores off by design --
+# n_iter_restart=1, p_accept=1, mutation only ... -- are not in this table)
+ALT_CFG = {
+    "HillClimbingOptimizer": [dict(epsilon=0.3, n_neighbours=5)],
+    "RepulsingHillClimbingOptimizer": [dict(repulsion_factor=10)],
+    "RandomRestartHillClimbingOptimizer": [dict(n_iter_restart=20)],
+    "RandomAnnealingOptimizer": [dict(start_temp=100)],
+    "PatternSearch": [dict(n_positions=2), dict(pattern_size=0.5)],
+    "PowellsMethod": [dict(iters_p_dim=1), dict(iters_p_dim=3)],
+    "DownhillSimplexOptimizer": [dict(alpha=2.5, gamma=3)],
+    "DirectAlgorithm": [],
+    "ParticleSwarmOptimizer": [dict(inertia=0.9, social_weight=1.5, population=5)],
+    "SpiralOptimization": [dict(decay_rate=0.9, population=5)],
+    "GeneticAlgorithmOptimizer": [dict(population=6, offspring=5)],
+    "EvolutionStrategyOptimizer": [dict(population=5, mutation_rate=0.3, crossover_rate=0.7)],
+    "DifferentialEvolutionOptimizer": [dict(population=6, mutation_rate=0.5)],
+}
+
 
 def landscape(seed, ndim, size, offset_kind):
     r = random.Random(seed)
@@ -48,7 +66,8 @@ def run(ctx):
     ctx.monitor_rule = ("per optimizer: unimodal landscapes f with the optimum near a corner (1-3 dims, negative / positive / mixed score "
                         "ranges); for each seed the mean f-value of the second half of the run maximising f must exceed that of the "
                         "run maximising -f; the optimizer passes if this holds for at least 3/4 of the seeds; random and grid search "
-                        "must evaluate identical points in both runs; distinct by (optimizer, seed, range)")
+                        "must evaluate identical points in both runs; non-default settings that keep the optimizer directed (Powell iters_p_dim 1 / 3, "
+                        "pattern sizes, simplex coefficients, swarm / evolution parameters) are tested as separate groups; distinct by (optimizer, seed, range)")
     import multiprocessing as mp
     seeds = list(range(1, 7)) if ctx.quick else list(range(1, 13))
     tasks = []
@@ -65,6 +84,10 @@ def run(ctx):
             if name in gen.SMBO and name != "LipschitzOptimizer":
                 cfg = {}
             tasks.append((name, sd + 1000 * (ctx.seed % 7), ndim, size, kind, n_iter, cfg))
+            for alt in ALT_CFG.get(name, []):
+                if alt.get("iters_p_dim", 9) < 5 and ndim == 1:
+                    continue        # one dimension and fewer than 5 iterations per direction: only the inner start points are ever evaluated (score-blind by construction)
+                tasks.append((name, sd + 1000 * (ctx.seed % 7), ndim, size, kind, n_iter, dict(alt)))
             # model-based optimizers also with candidate sub-sampling switched on (sampling={"random": k} below the space size):
             # the proposal then goes through the per-iteration candidate subset
             if name in gen.SMBO and name != "LipschitzOptimizer":
